@@ -1,15 +1,2009 @@
-//! C09 — engine not implemented yet.
+//! C09 — restart semantics: warm keeps exactly RETAIN data, cold equals a fresh start, a power
+//! cycle through a retain store preserves the same set as a warm restart, and every binding
+//! (direct address, access path, task) stays connected across any restart.
+//!
+//! Core X2: breadth-first search over event histories
+//!   {cycle, write %I vector 0/1, restart(Warm), restart(Cold), power-cycle, latch a fault}
+//! replayed on the REAL runtime (`TestHarness`), one state = history + reference-model state.
+//!
+//! The reference model is deliberately small. It knows (a) the declared initial value, the
+//! qualifier and the scope of every variable of the generated programs, (b) the one-line update
+//! each program applies to each variable per execution, (c) the retain rules of the statement.
+//! Everything the statement does not talk about is *adopted* from the implementation instead of
+//! predicted: whether a cycle executed (fault latch), whether a task-associated program ran in a
+//! cycle (read from that program's own execution counter), the %I/%M image before a cycle.
+//! Time, fault latch and task state are only checked *differentially* (cold restart vs. a freshly
+//! built runtime on the same continuation), exactly as the statement words it; the cycle counter
+//! is not compared at all (the statement does not list it).
+//!
+//! Bounds: history depth 4 (quick) / 8 (thorough; the design asked for 6, 8 costs < 1 min), plus a
+//! look-ahead of every continuation "write inputs, cycle, [write through access paths], write
+//! inputs, cycle" over 2 input vectors after every history that ends in a restart. Declared
+//! initial values are spaced so that they stay pairwise distinct for 10 cycles.
+//!
+//! Oracle clauses (signature prefix):
+//!  * `warm/…`, `cold/…`, `power-cycle/…`   retain model on the variables right after the event
+//!  * `power-cycle/set-differs-from-warm/…`  where the statement leaves the reading open, the same
+//!    reading must explain the warm restart and the power cycle of one history
+//!  * `binding/…`           relational checks on the real state after every executed cycle that
+//!    follows a restart: %I image -> bound variable, bound variable -> %Q/%M image, access path
+//!    read == variable (and write reaches it), FB instance WITH task runs whenever the program
+//!    WITH the same task runs, a program without task runs in every executed cycle
+//!  * `cold-vs-fresh/<family>/{vars,outputs,access}` and `cold-vs-fresh/{time,fault-latch,
+//!    task-overrun}`    differential clause; variable/output/access differences are not reported
+//!    again when the same evaluation already reports a disconnected binding (or a differing
+//!    clock / fault latch) that explains them
+//!  * `divergence-after-<event>/…`  a variable leaves the model later than right after the restart
+//! Anything that disagrees with the model on a runtime that was never restarted is a *machinery*
+//! error (the model or the harness is wrong), never a verdict.
+//!
+//! Readings accepted (never demand more than the statement):
+//!  * FB-instance members whose instance or own declaration is RETAIN/PERSISTENT, and unqualified
+//!    variables of a `PROGRAM RETAIN` instance: after warm restart / power cycle either the
+//!    pre-restart or the initial value is accepted (the statement restricts "RETAIN variable" to
+//!    global or program-level; IEC retains whole instances) — but nothing else.
+//!  * A VAR_CONFIG instance-specific initial value: after a warm restart either it or the POU's
+//!    own initial value is accepted; the cold-vs-fresh differential is strict.
+//!  * Value type tags are ignored everywhere (C03's business): integers compare by value.
+//!  * The %Q image is compared with a fresh runtime only after the first continuation cycle; the
+//!    %I image is environment and never compared.
+//! Left out of the alphabet: `restart_with_retain(Cold)` / the resource loop's
+//! "restart then load_retain_store" (whether a cold start with a retain file present must ignore
+//! the file is not derivable from the statement); array/struct initialisers (not supported by
+//! the compiler); TON/CTU internals (C04).
 
 use crate::fw::*;
 use crate::iso::WorkerFn;
-use serde_json::Value;
+use crate::x2;
+use serde_json::{json, Value as J};
+use std::collections::{BTreeMap, BTreeSet};
+use std::hash::{Hash, Hasher};
+use std::path::PathBuf;
+use std::sync::atomic::{AtomicU64, Ordering};
+use std::sync::Mutex;
+use std::time::{Duration as StdDuration, Instant};
+use trust_runtime::harness::TestHarness;
+use trust_runtime::io::{IoAddress, IoTarget};
+use trust_runtime::memory::{InstanceId, MemoryLocation};
+use trust_runtime::retain::FileRetainStore;
+use trust_runtime::value::{Duration, Value, ValueRef};
+use trust_runtime::RestartMode;
 
-pub fn run(_ctx: &Ctx) -> EngineResult {
-    machinery("engine C09 not implemented")
+// ------------------------------------------------------------------------------------------
+// model values (type tags deliberately dropped)
+// ------------------------------------------------------------------------------------------
+
+#[derive(Clone, Debug, PartialEq)]
+enum MVal {
+    B(bool),
+    I(i128),
+    R(f64),
+    T(i64),
+    S(String),
+    A(Vec<(i64, i64)>, Vec<MVal>),
+    St(Vec<(String, MVal)>),
+    E(String),
+    Other(String),
 }
 
-pub fn check_case(_case: &Value) -> Vec<Violation> {
-    Vec::new()
+fn to_mval(v: &Value) -> MVal {
+    match v {
+        Value::Bool(b) => MVal::B(*b),
+        Value::SInt(x) => MVal::I(*x as i128),
+        Value::Int(x) => MVal::I(*x as i128),
+        Value::DInt(x) => MVal::I(*x as i128),
+        Value::LInt(x) => MVal::I(*x as i128),
+        Value::USInt(x) => MVal::I(*x as i128),
+        Value::UInt(x) => MVal::I(*x as i128),
+        Value::UDInt(x) => MVal::I(*x as i128),
+        Value::ULInt(x) => MVal::I(*x as i128),
+        Value::Byte(x) => MVal::I(*x as i128),
+        Value::Word(x) => MVal::I(*x as i128),
+        Value::DWord(x) => MVal::I(*x as i128),
+        Value::LWord(x) => MVal::I(*x as i128),
+        Value::Real(x) => MVal::R(*x as f64),
+        Value::LReal(x) => MVal::R(*x),
+        Value::Time(d) | Value::LTime(d) => MVal::T(d.as_nanos()),
+        Value::String(s) => MVal::S(s.to_string()),
+        Value::WString(s) => MVal::S(s.clone()),
+        Value::Array(a) => MVal::A(a.dimensions.clone(), a.elements.iter().map(to_mval).collect()),
+        Value::Struct(s) => {
+            let mut f: Vec<(String, MVal)> =
+                s.fields.iter().map(|(k, v)| (k.to_string(), to_mval(v))).collect();
+            f.sort_by(|a, b| a.0.cmp(&b.0));
+            MVal::St(f)
+        }
+        Value::Enum(e) => MVal::E(e.variant_name.to_string()),
+        other => MVal::Other(format!("{other:?}")),
+    }
+}
+
+fn show(v: &MVal) -> String {
+    match v {
+        MVal::B(b) => format!("{b}"),
+        MVal::I(i) => format!("{i}"),
+        MVal::R(r) => format!("{r}"),
+        MVal::T(t) => format!("T#{}ms", t / 1_000_000),
+        MVal::S(s) => format!("'{s}'"),
+        MVal::A(_, e) => format!("[{}]", e.iter().map(show).collect::<Vec<_>>().join(",")),
+        MVal::St(f) => format!(
+            "({})",
+            f.iter().map(|(k, v)| format!("{k}:={}", show(v))).collect::<Vec<_>>().join(",")
+        ),
+        MVal::E(e) => e.clone(),
+        MVal::Other(o) => o.clone(),
+    }
+}
+
+#[derive(Clone, Copy, PartialEq, Eq, Debug, PartialOrd, Ord)]
+enum Qual {
+    None,
+    Retain,
+    NonRetain,
+    Persistent,
+}
+
+impl Qual {
+    fn kw(self) -> &'static str {
+        match self {
+            Qual::None => "",
+            Qual::Retain => " RETAIN",
+            Qual::NonRetain => " NON_RETAIN",
+            Qual::Persistent => " PERSISTENT",
+        }
+    }
+    fn tag(self) -> &'static str {
+        match self {
+            Qual::None => "none",
+            Qual::Retain => "RETAIN",
+            Qual::NonRetain => "NON_RETAIN",
+            Qual::Persistent => "PERSISTENT",
+        }
+    }
+    fn short(self) -> &'static str {
+        match self {
+            Qual::None => "u",
+            Qual::Retain => "r",
+            Qual::NonRetain => "n",
+            Qual::Persistent => "p",
+        }
+    }
+    fn retains(self) -> bool {
+        matches!(self, Qual::Retain | Qual::Persistent)
+    }
+}
+
+#[derive(Clone, Copy, PartialEq, Eq, Debug, PartialOrd, Ord)]
+enum Ty {
+    Bool,
+    Int,
+    Real,
+    Time,
+    Str,
+    Arr,
+    Struct,
+    Enum,
+}
+
+const ALL_TY: [Ty; 8] = [Ty::Bool, Ty::Int, Ty::Real, Ty::Time, Ty::Str, Ty::Arr, Ty::Struct, Ty::Enum];
+const ENUM_VARIANTS: [&str; 3] = ["Red", "Green", "Blue"];
+
+impl Ty {
+    fn tag(self) -> &'static str {
+        match self {
+            Ty::Bool => "BOOL",
+            Ty::Int => "INT",
+            Ty::Real => "REAL",
+            Ty::Time => "TIME",
+            Ty::Str => "STRING",
+            Ty::Arr => "ARRAY",
+            Ty::Struct => "STRUCT",
+            Ty::Enum => "ENUM",
+        }
+    }
+    fn short(self) -> &'static str {
+        match self {
+            Ty::Bool => "bool",
+            Ty::Int => "int",
+            Ty::Real => "real",
+            Ty::Time => "time",
+            Ty::Str => "str",
+            Ty::Arr => "arr",
+            Ty::Struct => "pt",
+            Ty::Enum => "col",
+        }
+    }
+    fn decl(self) -> &'static str {
+        match self {
+            Ty::Bool => "BOOL",
+            Ty::Int => "INT",
+            Ty::Real => "REAL",
+            Ty::Time => "TIME",
+            Ty::Str => "STRING",
+            Ty::Arr => "ARRAY[0..1] OF INT",
+            Ty::Struct => "Pt",
+            Ty::Enum => "Color",
+        }
+    }
+    /// (initial value, initialiser text) — distinct per `idx` wherever the type allows, so that
+    /// a value restored into the wrong variable is visible.
+    fn init(self, idx: usize) -> (MVal, String) {
+        match self {
+            Ty::Bool => {
+                let b = idx % 2 == 0;
+                (MVal::B(b), format!(" := {}", if b { "TRUE" } else { "FALSE" }))
+            }
+            Ty::Int => {
+                let n = 100 + 20 * idx as i128;
+                (MVal::I(n), format!(" := {n}"))
+            }
+            Ty::Real => {
+                let r = idx as f64 * 8.0 + 0.25;
+                (MVal::R(r), format!(" := {r:.2}"))
+            }
+            Ty::Time => {
+                let s = idx as i64 * 20;
+                (MVal::T(s * 1_000_000_000), format!(" := T#{s}s"))
+            }
+            Ty::Str => {
+                let s = format!("s{idx}q");
+                (MVal::S(s.clone()), format!(" := '{s}'"))
+            }
+            Ty::Arr => (MVal::A(vec![(0, 1)], vec![MVal::I(0), MVal::I(0)]), String::new()),
+            Ty::Struct => (
+                MVal::St(vec![("a".into(), MVal::I(0)), ("b".into(), MVal::B(false))]),
+                String::new(),
+            ),
+            Ty::Enum => {
+                let v = ENUM_VARIANTS[idx % 3];
+                (MVal::E(v.into()), format!(" := Color#{v}"))
+            }
+        }
+    }
+    /// the statement(s) that change variable `n` on every execution of its POU
+    fn step_stmt(self, n: &str) -> String {
+        match self {
+            Ty::Bool => format!("{n} := NOT {n};"),
+            Ty::Int => format!("{n} := {n} + 1;"),
+            Ty::Real => format!("{n} := {n} + 0.5;"),
+            Ty::Time => format!("{n} := ADD_TIME({n}, T#1s);"),
+            Ty::Str => format!("{n} := CONCAT({n}, 'x');"),
+            Ty::Arr => format!("{n}[0] := {n}[0] + 1; {n}[1] := {n}[1] + 2;"),
+            Ty::Struct => format!("{n}.a := {n}.a + 1; {n}.b := NOT {n}.b;"),
+            Ty::Enum => format!(
+                "IF {n} = Color#Red THEN {n} := Color#Green; ELSIF {n} = Color#Green THEN {n} := Color#Blue; ELSE {n} := Color#Red; END_IF;"
+            ),
+        }
+    }
+}
+
+/// the reference semantics of `step_stmt`
+fn step(v: &MVal) -> MVal {
+    match v {
+        MVal::B(b) => MVal::B(!b),
+        MVal::I(i) => MVal::I(i + 1),
+        MVal::R(r) => MVal::R(r + 0.5),
+        MVal::T(t) => MVal::T(t + 1_000_000_000),
+        MVal::S(s) => MVal::S(format!("{s}x")),
+        MVal::A(d, e) => {
+            let mut e = e.clone();
+            for (k, x) in e.iter_mut().enumerate() {
+                if let MVal::I(i) = x {
+                    *i += k as i128 + 1;
+                }
+            }
+            MVal::A(d.clone(), e)
+        }
+        MVal::St(f) => MVal::St(f.iter().map(|(k, v)| (k.clone(), step(v))).collect()),
+        MVal::E(e) => {
+            let i = ENUM_VARIANTS.iter().position(|x| x == e).unwrap_or(0);
+            MVal::E(ENUM_VARIANTS[(i + 1) % 3].into())
+        }
+        MVal::Other(o) => MVal::Other(o.clone()),
+    }
+}
+
+const TYPE_DECLS: &str = "TYPE\n    Color : (Red, Green, Blue);\n    Pt : STRUCT\n        a : INT;\n        b : BOOL;\n    END_STRUCT;\nEND_TYPE\n";
+
+// ------------------------------------------------------------------------------------------
+// program families
+// ------------------------------------------------------------------------------------------
+
+#[derive(Clone, Copy, PartialEq, Eq, Debug)]
+enum Class {
+    /// RETAIN/PERSISTENT, global or program-level: survives warm restart and power cycle
+    Keep,
+    /// everything else the statement is clear about: declared initial value
+    Reset,
+    /// FB members under a RETAIN declaration, unqualified vars of a PROGRAM RETAIN instance
+    Ambiguous,
+}
+
+#[derive(Clone, Debug)]
+enum Upd {
+    /// never written by a program (input-bound)
+    Keep,
+    Step,
+    CopyOf(String),
+    NotOf(String),
+    IncOf(String),
+}
+
+#[derive(Clone, Debug)]
+struct VarSpec {
+    path: String,
+    class: Class,
+    /// part of the qualifier x scope x type matrix (aggregated signatures)
+    matrix: bool,
+    /// "global" | "program" | "fbm"
+    coarse: &'static str,
+    /// cfg | res | pgl | prog | tprog | cfgprog | fbm[global:RETAIN] ...
+    scope: String,
+    qual: Qual,
+    ty: Ty,
+    init: MVal,
+    alt_init: Option<MVal>,
+    upd: Upd,
+    /// execution unit that updates it (usize::MAX: none)
+    unit: usize,
+    in_addr: Option<String>,
+    out_addr: Option<String>,
+    mem_addr: Option<String>,
+    /// binding kind a post-restart divergence of this variable is attributed to
+    bind_kind: Option<String>,
+}
+
+impl VarSpec {
+    fn feature(&self) -> String {
+        format!("{}:{}:{}", self.scope, self.qual.tag(), self.ty.tag())
+    }
+}
+
+#[derive(Clone, Debug)]
+struct Unit {
+    name: String,
+    /// path of the unit's own execution counter
+    observer: Option<String>,
+    /// runs exactly when that unit runs (FB instance associated with the same task)
+    follows: Option<usize>,
+    /// a program without task association: executes in every cycle the resource executes
+    always: bool,
+}
+
+#[derive(Clone, Copy, PartialEq, Eq, Hash, Debug)]
+enum Ev {
+    Cycle,
+    Write(u8),
+    Warm,
+    Cold,
+    Power,
+    Fault,
+    /// only used inside continuations: write a sentinel through every READ_WRITE access path
+    AccessWrite,
+}
+
+impl Ev {
+    fn name(self) -> String {
+        match self {
+            Ev::Cycle => "cycle".into(),
+            Ev::Write(k) => format!("write{k}"),
+            Ev::Warm => "warm".into(),
+            Ev::Cold => "cold".into(),
+            Ev::Power => "power".into(),
+            Ev::Fault => "fault".into(),
+            Ev::AccessWrite => "access-write".into(),
+        }
+    }
+    fn parse(s: &str) -> Option<Ev> {
+        Some(match s {
+            "cycle" => Ev::Cycle,
+            "write0" => Ev::Write(0),
+            "write1" => Ev::Write(1),
+            "warm" => Ev::Warm,
+            "cold" => Ev::Cold,
+            "power" => Ev::Power,
+            "fault" => Ev::Fault,
+            "access-write" => Ev::AccessWrite,
+            _ => return None,
+        })
+    }
+    fn is_restart(self) -> bool {
+        matches!(self, Ev::Warm | Ev::Cold)
+    }
+}
+
+fn hist_json(h: &[Ev]) -> J {
+    J::Array(h.iter().map(|e| J::String(e.name())).collect())
+}
+
+struct Family {
+    name: &'static str,
+    source: String,
+    vars: Vec<VarSpec>,
+    units: Vec<Unit>,
+    in_bits: Vec<String>,
+    in_words: Vec<String>,
+    tasks: Vec<String>,
+    /// (access name, target variable path, binding kind)
+    access: Vec<(String, String, String)>,
+    events: Vec<Ev>,
+}
+
+impl Family {
+    fn has_inputs(&self) -> bool {
+        !self.in_bits.is_empty() || !self.in_words.is_empty()
+    }
+    /// the continuations ("2 cycles with inputs") explored after every restart
+    fn continuations(&self) -> Vec<Vec<Ev>> {
+        if !self.has_inputs() {
+            return vec![vec![Ev::Cycle, Ev::Cycle]];
+        }
+        let mut out = Vec::new();
+        for k1 in 0..2u8 {
+            for k2 in 0..2u8 {
+                let mut t = vec![Ev::Write(k1), Ev::Cycle];
+                if !self.access.is_empty() {
+                    t.push(Ev::AccessWrite);
+                }
+                t.push(Ev::Write(k2));
+                t.push(Ev::Cycle);
+                out.push(t);
+            }
+        }
+        out
+    }
+}
+
+fn plain(
+    path: String,
+    class: Class,
+    coarse: &'static str,
+    scope: &str,
+    qual: Qual,
+    ty: Ty,
+    init: MVal,
+    unit: usize,
+) -> VarSpec {
+    VarSpec {
+        path,
+        class,
+        matrix: true,
+        coarse,
+        scope: scope.to_string(),
+        qual,
+        ty,
+        init,
+        alt_init: None,
+        upd: Upd::Step,
+        unit,
+        in_addr: None,
+        out_addr: None,
+        mem_addr: None,
+        bind_kind: None,
+    }
+}
+
+fn special(path: &str, coarse: &'static str, scope: &str, ty: Ty, init: MVal, upd: Upd, unit: usize) -> VarSpec {
+    VarSpec {
+        path: path.to_string(),
+        class: Class::Reset,
+        matrix: true,
+        coarse,
+        scope: scope.to_string(),
+        qual: Qual::None,
+        ty,
+        init,
+        alt_init: None,
+        upd,
+        unit,
+        in_addr: None,
+        out_addr: None,
+        mem_addr: None,
+        bind_kind: None,
+    }
+}
+
+const QUALS_ALL: [Qual; 4] = [Qual::None, Qual::Retain, Qual::NonRetain, Qual::Persistent];
+
+/// F "matrix": qualifier x scope x type, every variable changed on every execution of its POU,
+/// only GLOBAL direct-address bindings (which refer to globals by index and are expected to
+/// survive restarts), a periodic task program and a PROGRAM RETAIN instance.
+fn family_matrix(quals: &[Qual]) -> Family {
+    let mut vars: Vec<VarSpec> = Vec::new();
+    let mut idx = 0usize;
+    let mut next = |ty: Ty| {
+        idx += 1;
+        ty.init(idx)
+    };
+    let mut src = String::from(TYPE_DECLS);
+
+    // FB type: members of every qualifier
+    let fb_tys = [Ty::Int, Ty::Arr];
+    let mut fb_members: Vec<(String, Qual, Ty, MVal)> = Vec::new();
+    src.push_str("\nFUNCTION_BLOCK Acc\n");
+    let mut fb_body = String::new();
+    for &q in quals {
+        src.push_str(&format!("VAR{}\n", q.kw()));
+        for ty in fb_tys {
+            let n = format!("m_{}_{}", q.short(), ty.short());
+            let (iv, it) = next(ty);
+            src.push_str(&format!("    {n} : {}{it};\n", ty.decl()));
+            fb_body.push_str(&format!("{}\n", ty.step_stmt(&n)));
+            fb_members.push((n, q, ty, iv));
+        }
+        src.push_str("END_VAR\n");
+    }
+    src.push_str(&fb_body);
+    src.push_str("END_FUNCTION_BLOCK\n");
+
+    let mut externals = String::new();
+    let mut main_body = String::new();
+
+    // configuration-level globals: full matrix
+    src.push_str("\nCONFIGURATION Conf\n");
+    for &q in quals {
+        src.push_str(&format!("VAR_GLOBAL{}\n", q.kw()));
+        for ty in ALL_TY {
+            let n = format!("cfg_{}_{}", q.short(), ty.short());
+            let (iv, it) = next(ty);
+            src.push_str(&format!("    {n} : {}{it};\n", ty.decl()));
+            externals.push_str(&format!("    {n} : {};\n", ty.decl()));
+            main_body.push_str(&format!("{}\n", ty.step_stmt(&n)));
+            let class = if q.retains() { Class::Keep } else { Class::Reset };
+            vars.push(plain(n, class, "global", "cfg", q, ty, iv, 0));
+        }
+        src.push_str("END_VAR\n");
+    }
+    // global direct-address bindings and global FB instances
+    src.push_str("VAR_GLOBAL\n    gi0 AT %IX0.0 : BOOL;\n    gi1 AT %IX0.1 : BOOL;\n    giw AT %IW2 : INT;\n    gq0 AT %QX0.0 : BOOL;\n    gq1 AT %QX0.1 : BOOL;\n    gqw AT %QW2 : INT;\n    gfb_u : Acc;\nEND_VAR\nVAR_GLOBAL RETAIN\n    gfb_r : Acc;\nEND_VAR\n");
+    externals.push_str("    gi0 : BOOL;\n    gi1 : BOOL;\n    giw : INT;\n    gq0 : BOOL;\n    gq1 : BOOL;\n    gqw : INT;\n    gfb_u : Acc;\n    gfb_r : Acc;\n");
+    main_body.push_str("gq0 := gi0;\ngq1 := NOT gi1;\ngqw := giw + 1;\ngfb_u();\ngfb_r();\n");
+    let kind = "io:global-var";
+    for (n, ty, addr) in [("gi0", Ty::Bool, "%IX0.0"), ("gi1", Ty::Bool, "%IX0.1"), ("giw", Ty::Int, "%IW2")] {
+        let init = if ty == Ty::Bool { MVal::B(false) } else { MVal::I(0) };
+        let mut v = special(n, "global", "cfg@%I", ty, init, Upd::Keep, usize::MAX);
+        v.in_addr = Some(addr.into());
+        v.bind_kind = Some(kind.into());
+        vars.push(v);
+    }
+    for (n, ty, addr, upd) in [
+        ("gq0", Ty::Bool, "%QX0.0", Upd::CopyOf("gi0".into())),
+        ("gq1", Ty::Bool, "%QX0.1", Upd::NotOf("gi1".into())),
+        ("gqw", Ty::Int, "%QW2", Upd::IncOf("giw".into())),
+    ] {
+        let init = if ty == Ty::Bool { MVal::B(false) } else { MVal::I(0) };
+        let mut v = special(n, "global", "cfg@%Q", ty, init, upd, 0);
+        v.out_addr = Some(addr.into());
+        v.bind_kind = Some(kind.into());
+        vars.push(v);
+    }
+    let fb_instance = |vars: &mut Vec<VarSpec>, prefix: &str, where_: &str, iq: Qual, unit: usize| {
+        for (n, q, ty, iv) in &fb_members {
+            let class = if iq.retains() || q.retains() { Class::Ambiguous } else { Class::Reset };
+            let scope = format!("fbm[{where_}:{}]", iq.tag());
+            vars.push(plain(format!("{prefix}.{n}"), class, "fbm", &scope, *q, *ty, iv.clone(), unit));
+        }
+    };
+    fb_instance(&mut vars, "gfb_u", "global", Qual::None, 0);
+    fb_instance(&mut vars, "gfb_r", "global", Qual::Retain, 0);
+
+    // resource-level globals
+    src.push_str("RESOURCE Res ON CPU\n");
+    for &q in quals {
+        src.push_str(&format!("VAR_GLOBAL{}\n", q.kw()));
+        for ty in [Ty::Int, Ty::Str] {
+            let n = format!("res_{}_{}", q.short(), ty.short());
+            let (iv, it) = next(ty);
+            src.push_str(&format!("    {n} : {}{it};\n", ty.decl()));
+            externals.push_str(&format!("    {n} : {};\n", ty.decl()));
+            main_body.push_str(&format!("{}\n", ty.step_stmt(&n)));
+            let class = if q.retains() { Class::Keep } else { Class::Reset };
+            vars.push(plain(n, class, "global", "res", q, ty, iv, 0));
+        }
+        src.push_str("END_VAR\n");
+    }
+    src.push_str("TASK T20 (INTERVAL := T#20ms, PRIORITY := 1);\nPROGRAM P1 : Main;\nPROGRAM P2 WITH T20 : Tick;\nPROGRAM RETAIN P3 : Aux;\nEND_RESOURCE\nEND_CONFIGURATION\n");
+
+    // PROGRAM Main
+    src.push_str("\nPROGRAM Main\n");
+    for &q in quals {
+        src.push_str(&format!("VAR_GLOBAL{}\n", q.kw()));
+        for ty in [Ty::Int, Ty::Arr] {
+            let n = format!("pgl_{}_{}", q.short(), ty.short());
+            let (iv, it) = next(ty);
+            src.push_str(&format!("    {n} : {}{it};\n", ty.decl()));
+            main_body.push_str(&format!("{}\n", ty.step_stmt(&n)));
+            let class = if q.retains() { Class::Keep } else { Class::Reset };
+            vars.push(plain(n, class, "global", "pgl", q, ty, iv, 0));
+        }
+        src.push_str("END_VAR\n");
+    }
+    src.push_str("VAR_EXTERNAL\n");
+    src.push_str(&externals);
+    src.push_str("END_VAR\n");
+    for &q in quals {
+        src.push_str(&format!("VAR{}\n", q.kw()));
+        for ty in ALL_TY {
+            let n = format!("pr_{}_{}", q.short(), ty.short());
+            let (iv, it) = next(ty);
+            src.push_str(&format!("    {n} : {}{it};\n", ty.decl()));
+            main_body.push_str(&format!("{}\n", ty.step_stmt(&n)));
+            let class = if q.retains() { Class::Keep } else { Class::Reset };
+            vars.push(plain(format!("P1.{n}"), class, "program", "prog", q, ty, iv, 0));
+        }
+        src.push_str("END_VAR\n");
+    }
+    src.push_str("VAR\n    pfb_u : Acc;\n    obs_main : INT;\nEND_VAR\nVAR RETAIN\n    pfb_r : Acc;\nEND_VAR\nVAR NON_RETAIN\n    pfb_n : Acc;\nEND_VAR\n");
+    main_body.push_str("pfb_u();\npfb_r();\npfb_n();\nobs_main := obs_main + 1;\n");
+    fb_instance(&mut vars, "P1.pfb_u", "prog", Qual::None, 0);
+    fb_instance(&mut vars, "P1.pfb_r", "prog", Qual::Retain, 0);
+    fb_instance(&mut vars, "P1.pfb_n", "prog", Qual::NonRetain, 0);
+    vars.push(special("P1.obs_main", "program", "prog", Ty::Int, MVal::I(0), Upd::Step, 0));
+    src.push_str(&main_body);
+    src.push_str("END_PROGRAM\n");
+
+    // PROGRAM Tick (task-associated, every second cycle)
+    src.push_str("\nPROGRAM Tick\n");
+    let mut body = String::new();
+    for &q in quals {
+        src.push_str(&format!("VAR{}\n", q.kw()));
+        for ty in [Ty::Int, Ty::Struct, Ty::Time] {
+            let n = format!("tk_{}_{}", q.short(), ty.short());
+            let (iv, it) = next(ty);
+            src.push_str(&format!("    {n} : {}{it};\n", ty.decl()));
+            body.push_str(&format!("{}\n", ty.step_stmt(&n)));
+            let class = if q.retains() { Class::Keep } else { Class::Reset };
+            vars.push(plain(format!("P2.{n}"), class, "program", "tprog", q, ty, iv, 1));
+        }
+        src.push_str("END_VAR\n");
+    }
+    src.push_str("VAR\n    obs_tick : INT;\nEND_VAR\n");
+    body.push_str("obs_tick := obs_tick + 1;\n");
+    vars.push(special("P2.obs_tick", "program", "tprog", Ty::Int, MVal::I(0), Upd::Step, 1));
+    src.push_str(&body);
+    src.push_str("END_PROGRAM\n");
+
+    // PROGRAM Aux, instantiated as PROGRAM RETAIN P3
+    src.push_str("\nPROGRAM Aux\n");
+    let mut body = String::new();
+    for &q in quals {
+        src.push_str(&format!("VAR{}\n", q.kw()));
+        for ty in [Ty::Int, Ty::Str] {
+            let n = format!("au_{}_{}", q.short(), ty.short());
+            let (iv, it) = next(ty);
+            src.push_str(&format!("    {n} : {}{it};\n", ty.decl()));
+            body.push_str(&format!("{}\n", ty.step_stmt(&n)));
+            let class = match q {
+                Qual::Retain | Qual::Persistent => Class::Keep,
+                Qual::NonRetain => Class::Reset,
+                Qual::None => Class::Ambiguous,
+            };
+            vars.push(plain(format!("P3.{n}"), class, "program", "cfgprog", q, ty, iv, 2));
+        }
+        src.push_str("END_VAR\n");
+    }
+    src.push_str("VAR NON_RETAIN\n    obs_aux : INT;\nEND_VAR\n");
+    body.push_str("obs_aux := obs_aux + 1;\n");
+    let mut o = special("P3.obs_aux", "program", "cfgprog", Ty::Int, MVal::I(0), Upd::Step, 2);
+    o.qual = Qual::NonRetain;
+    vars.push(o);
+    src.push_str(&body);
+    src.push_str("END_PROGRAM\n");
+
+    Family {
+        name: "matrix",
+        source: src,
+        vars,
+        units: vec![
+            Unit { name: "P1:Main".into(), observer: Some("P1.obs_main".into()), follows: None, always: true },
+            Unit { name: "P2:Tick WITH T20".into(), observer: Some("P2.obs_tick".into()), follows: None, always: false },
+            Unit { name: "P3:Aux (PROGRAM RETAIN)".into(), observer: Some("P3.obs_aux".into()), follows: None, always: true },
+        ],
+        in_bits: vec!["%IX0.0".into(), "%IX0.1".into()],
+        in_words: vec!["%IW2".into()],
+        tasks: vec!["T20".into()],
+        access: vec![],
+        events: vec![Ev::Cycle, Ev::Write(0), Ev::Write(1), Ev::Warm, Ev::Cold, Ev::Power, Ev::Fault],
+    }
+}
+
+/// F "bindings": the stratum that exercises references into program / FB instances — program-level
+/// and FB-member `AT %I/%Q`, a wildcard located by VAR_CONFIG, VAR_ACCESS paths, a program and an
+/// FB instance associated with the same task.
+fn family_bindings() -> Family {
+    let src = r#"FUNCTION_BLOCK IoFb
+VAR
+    fin AT %IX1.0 : BOOL;
+    fout AT %QX1.0 : BOOL;
+    n : INT;
+END_VAR
+fout := fin;
+n := n + 1;
+END_FUNCTION_BLOCK
+
+FUNCTION_BLOCK TaskFb
+VAR
+    k : INT := 0;
+END_VAR
+k := k + 1;
+END_FUNCTION_BLOCK
+
+PROGRAM Main
+VAR_EXTERNAL
+    gin : BOOL;
+    gout : BOOL;
+    gc : INT;
+END_VAR
+VAR
+    pin AT %IX0.0 : BOOL;
+    pout AT %QX0.0 : BOOL;
+    piw AT %IW2 : INT;
+    pqw AT %QW2 : INT;
+    wq AT %Q* : BOOL;
+    av : INT := 5;
+    obs_main : INT;
+    iofb : IoFb;
+    tfb : TaskFb;
+END_VAR
+pout := pin;
+pqw := piw + 1;
+wq := NOT pin;
+av := av + 1;
+gout := gin;
+gc := gc + 1;
+iofb();
+obs_main := obs_main + 1;
+END_PROGRAM
+
+PROGRAM Tick
+VAR
+    tc : INT;
+    obs_tick : INT;
+END_VAR
+tc := tc + 1;
+obs_tick := obs_tick + 1;
+END_PROGRAM
+
+CONFIGURATION Conf
+VAR_GLOBAL
+    gin AT %IX0.1 : BOOL;
+    gout AT %QX0.1 : BOOL;
+    gc : INT := 9;
+END_VAR
+RESOURCE Res ON CPU
+TASK T10 (INTERVAL := T#10ms, PRIORITY := 1);
+PROGRAM P1 : Main (tfb WITH T10);
+PROGRAM P2 WITH T10 : Tick;
+END_RESOURCE
+VAR_ACCESS
+    A_av : P1.av : INT READ_WRITE;
+    A_gc : gc : INT READ_WRITE;
+END_VAR
+VAR_CONFIG
+    P1.wq AT %QX0.2 : BOOL;
+END_VAR
+END_CONFIGURATION
+"#;
+    let b = |x: bool| MVal::B(x);
+    let mut vars = Vec::new();
+    let mut add = |path: &str, coarse: &'static str, scope: &str, ty: Ty, init: MVal, upd: Upd, unit: usize, ia: Option<&str>, oa: Option<&str>, kind: Option<&str>| {
+        let mut v = special(path, coarse, scope, ty, init, upd, unit);
+        v.in_addr = ia.map(String::from);
+        v.out_addr = oa.map(String::from);
+        v.bind_kind = kind.map(String::from);
+        vars.push(v);
+    };
+    add("gin", "global", "cfg@%I", Ty::Bool, b(false), Upd::Keep, usize::MAX, Some("%IX0.1"), None, Some("io:global-var"));
+    add("gout", "global", "cfg@%Q", Ty::Bool, b(false), Upd::CopyOf("gin".into()), 0, None, Some("%QX0.1"), Some("io:global-var"));
+    add("gc", "global", "cfg@access", Ty::Int, MVal::I(9), Upd::Step, 0, None, None, Some("access:global-var"));
+    add("P1.pin", "program", "prog@%I", Ty::Bool, b(false), Upd::Keep, usize::MAX, Some("%IX0.0"), None, Some("io:program-var"));
+    add("P1.pout", "program", "prog@%Q", Ty::Bool, b(false), Upd::CopyOf("P1.pin".into()), 0, None, Some("%QX0.0"), Some("io:program-var"));
+    add("P1.piw", "program", "prog@%I", Ty::Int, MVal::I(0), Upd::Keep, usize::MAX, Some("%IW2"), None, Some("io:program-var"));
+    add("P1.pqw", "program", "prog@%Q", Ty::Int, MVal::I(0), Upd::IncOf("P1.piw".into()), 0, None, Some("%QW2"), Some("io:program-var"));
+    add("P1.wq", "program", "prog@var-config", Ty::Bool, b(false), Upd::NotOf("P1.pin".into()), 0, None, Some("%QX0.2"), Some("io:var-config"));
+    add("P1.av", "program", "prog@access", Ty::Int, MVal::I(5), Upd::Step, 0, None, None, Some("access:program-var"));
+    add("P1.obs_main", "program", "prog", Ty::Int, MVal::I(0), Upd::Step, 0, None, None, None);
+    add("P1.iofb.fin", "fbm", "fbm@%I", Ty::Bool, b(false), Upd::Keep, usize::MAX, Some("%IX1.0"), None, Some("io:fb-member"));
+    add("P1.iofb.fout", "fbm", "fbm@%Q", Ty::Bool, b(false), Upd::CopyOf("P1.iofb.fin".into()), 0, None, Some("%QX1.0"), Some("io:fb-member"));
+    add("P1.iofb.n", "fbm", "fbm", Ty::Int, MVal::I(0), Upd::Step, 0, None, None, None);
+    add("P1.tfb.k", "fbm", "fbm@task", Ty::Int, MVal::I(0), Upd::Step, 2, None, None, Some("task-fb"));
+    add("P2.tc", "program", "tprog", Ty::Int, MVal::I(0), Upd::Step, 1, None, None, None);
+    add("P2.obs_tick", "program", "tprog", Ty::Int, MVal::I(0), Upd::Step, 1, None, None, None);
+    Family {
+        name: "bindings",
+        source: src.to_string(),
+        vars,
+        units: vec![
+            Unit { name: "P1:Main".into(), observer: Some("P1.obs_main".into()), follows: None, always: true },
+            Unit { name: "P2:Tick WITH T10".into(), observer: Some("P2.obs_tick".into()), follows: None, always: false },
+            Unit { name: "P1.tfb WITH T10".into(), observer: None, follows: Some(1), always: false },
+        ],
+        in_bits: vec!["%IX0.0".into(), "%IX0.1".into(), "%IX1.0".into()],
+        in_words: vec!["%IW2".into()],
+        tasks: vec!["T10".into()],
+        access: vec![
+            ("A_av".into(), "P1.av".into(), "access:program-var".into()),
+            ("A_gc".into(), "gc".into(), "access:global-var".into()),
+        ],
+        events: vec![Ev::Cycle, Ev::Write(0), Ev::Write(1), Ev::Warm, Ev::Cold, Ev::Power, Ev::Fault],
+    }
+}
+
+/// F "config-init": instance-specific initial values given in VAR_CONFIG.
+fn family_config_init() -> Family {
+    let src = r#"PROGRAM Main
+VAR
+    x : INT := 5;
+    y : INT := 6;
+    obs_main : INT;
+END_VAR
+VAR RETAIN
+    z : INT := 7;
+END_VAR
+x := x + 1;
+y := y + 1;
+z := z + 1;
+obs_main := obs_main + 1;
+END_PROGRAM
+
+CONFIGURATION Conf
+PROGRAM P1 : Main;
+VAR_CONFIG
+    P1.x : INT := 42;
+    P1.z : INT := 43;
+END_VAR
+END_CONFIGURATION
+"#;
+    let mut vars = Vec::new();
+    let mut x = special("P1.x", "program", "prog+var-config-init", Ty::Int, MVal::I(42), Upd::Step, 0);
+    x.alt_init = Some(MVal::I(5));
+    x.matrix = false;
+    vars.push(x);
+    vars.push(special("P1.y", "program", "prog", Ty::Int, MVal::I(6), Upd::Step, 0));
+    let mut z = special("P1.z", "program", "prog+var-config-init", Ty::Int, MVal::I(43), Upd::Step, 0);
+    z.alt_init = Some(MVal::I(7));
+    z.matrix = false;
+    z.class = Class::Keep;
+    z.qual = Qual::Retain;
+    vars.push(z);
+    vars.push(special("P1.obs_main", "program", "prog", Ty::Int, MVal::I(0), Upd::Step, 0));
+    Family {
+        name: "config-init",
+        source: src.to_string(),
+        vars,
+        units: vec![Unit { name: "P1:Main".into(), observer: Some("P1.obs_main".into()), follows: None, always: true }],
+        in_bits: vec![],
+        in_words: vec![],
+        tasks: vec![],
+        access: vec![],
+        // no power cycle here: the loss of program-level RETAIN in a power cycle is the matrix family's finding
+        events: vec![Ev::Cycle, Ev::Warm, Ev::Cold],
+    }
+}
+
+/// F "single": an event task whose SINGLE variable is initialised TRUE and toggled by a program
+/// (task state `last_single` is seeded from the variable when the task is registered).
+fn family_single() -> Family {
+    let src = r#"CONFIGURATION Conf
+VAR_GLOBAL
+    trig : BOOL := TRUE;
+END_VAR
+TASK Ev (SINGLE := trig, PRIORITY := 1);
+PROGRAM P1 WITH Ev : OnEv;
+PROGRAM P2 : Main;
+END_CONFIGURATION
+
+PROGRAM OnEv
+VAR
+    n : INT;
+    obs_ev : INT;
+END_VAR
+n := n + 1;
+obs_ev := obs_ev + 1;
+END_PROGRAM
+
+PROGRAM Main
+VAR_EXTERNAL
+    trig : BOOL;
+END_VAR
+VAR
+    m : INT;
+    obs_main : INT;
+END_VAR
+m := m + 1;
+trig := NOT trig;
+obs_main := obs_main + 1;
+END_PROGRAM
+"#;
+    let vars = vec![
+        special("trig", "global", "cfg@single", Ty::Bool, MVal::B(true), Upd::Step, 1),
+        special("P1.n", "program", "tprog", Ty::Int, MVal::I(0), Upd::Step, 0),
+        special("P1.obs_ev", "program", "tprog", Ty::Int, MVal::I(0), Upd::Step, 0),
+        special("P2.m", "program", "prog", Ty::Int, MVal::I(0), Upd::Step, 1),
+        special("P2.obs_main", "program", "prog", Ty::Int, MVal::I(0), Upd::Step, 1),
+    ];
+    Family {
+        name: "single",
+        source: src.to_string(),
+        vars,
+        units: vec![
+            Unit { name: "P1:OnEv WITH Ev".into(), observer: Some("P1.obs_ev".into()), follows: None, always: false },
+            Unit { name: "P2:Main".into(), observer: Some("P2.obs_main".into()), follows: None, always: true },
+        ],
+        in_bits: vec![],
+        in_words: vec![],
+        tasks: vec!["Ev".into()],
+        access: vec![],
+        events: vec![Ev::Cycle, Ev::Warm, Ev::Cold, Ev::Power],
+    }
+}
+
+/// F "memory": a global bound to the %M area (read at cycle start, written at cycle end).
+fn family_memory() -> Family {
+    let src = r#"CONFIGURATION Conf
+VAR_GLOBAL
+    gm AT %MW0 : INT;
+END_VAR
+PROGRAM P1 : Main;
+END_CONFIGURATION
+
+PROGRAM Main
+VAR_EXTERNAL
+    gm : INT;
+END_VAR
+VAR
+    c : INT;
+    obs_main : INT;
+END_VAR
+gm := gm + 1;
+c := c + 1;
+obs_main := obs_main + 1;
+END_PROGRAM
+"#;
+    let mut gm = special("gm", "global", "cfg@%M", Ty::Int, MVal::I(0), Upd::Step, 0);
+    gm.mem_addr = Some("%MW0".into());
+    gm.bind_kind = Some("mem:global-var".into());
+    let vars = vec![
+        gm,
+        special("P1.c", "program", "prog", Ty::Int, MVal::I(0), Upd::Step, 0),
+        special("P1.obs_main", "program", "prog", Ty::Int, MVal::I(0), Upd::Step, 0),
+    ];
+    Family {
+        name: "memory",
+        source: src.to_string(),
+        vars,
+        units: vec![Unit { name: "P1:Main".into(), observer: Some("P1.obs_main".into()), follows: None, always: true }],
+        in_bits: vec![],
+        in_words: vec![],
+        tasks: vec![],
+        access: vec![],
+        events: vec![Ev::Cycle, Ev::Warm, Ev::Cold, Ev::Power],
+    }
+}
+
+fn family_by_name(name: &str, persistent: bool) -> Option<Family> {
+    let quals: &[Qual] = if persistent { &QUALS_ALL } else { &QUALS_ALL[..3] };
+    Some(match name {
+        "matrix" => family_matrix(quals),
+        "bindings" => family_bindings(),
+        "config-init" => family_config_init(),
+        "single" => family_single(),
+        "memory" => family_memory(),
+        _ => return None,
+    })
+}
+
+const FAMILY_NAMES: [&str; 5] = ["matrix", "bindings", "config-init", "single", "memory"];
+
+// ------------------------------------------------------------------------------------------
+// observation of the real runtime (by NAME / structural path, never by instance id)
+// ------------------------------------------------------------------------------------------
+
+fn dump_vars(h: &TestHarness) -> BTreeMap<String, MVal> {
+    fn walk(st: &trust_runtime::memory::VariableStorage, id: InstanceId, prefix: &str, depth: usize, out: &mut BTreeMap<String, MVal>) {
+        let Some(inst) = st.get_instance(id) else {
+            out.insert(format!("{prefix}<dangling>"), MVal::Other("dangling instance".into()));
+            return;
+        };
+        for (n, v) in &inst.variables {
+            match v {
+                Value::Instance(i2) if depth < 4 => walk(st, *i2, &format!("{prefix}{n}."), depth + 1, out),
+                _ => {
+                    out.insert(format!("{prefix}{n}"), to_mval(v));
+                }
+            }
+        }
+    }
+    let st = h.runtime().storage();
+    let mut out = BTreeMap::new();
+    for (n, v) in st.globals() {
+        match v {
+            Value::Instance(id) => walk(st, *id, &format!("{n}."), 0, &mut out),
+            _ => {
+                out.insert(n.to_string(), to_mval(v));
+            }
+        }
+    }
+    out
+}
+
+fn live_instances(h: &TestHarness) -> BTreeSet<u32> {
+    let st = h.runtime().storage();
+    let mut seen = BTreeSet::new();
+    let mut todo: Vec<InstanceId> = st
+        .globals()
+        .values()
+        .filter_map(|v| if let Value::Instance(i) = v { Some(*i) } else { None })
+        .collect();
+    while let Some(id) = todo.pop() {
+        if !seen.insert(id.0) {
+            continue;
+        }
+        if let Some(inst) = st.get_instance(id) {
+            if let Some(p) = inst.parent {
+                todo.push(p);
+            }
+            for v in inst.variables.values() {
+                if let Value::Instance(i) = v {
+                    todo.push(*i);
+                }
+            }
+        }
+    }
+    seen
+}
+
+fn ref_is_stale(r: &ValueRef, live: &BTreeSet<u32>) -> bool {
+    match r.location {
+        MemoryLocation::Instance(id) => !live.contains(&id.0),
+        _ => false,
+    }
+}
+
+fn read_io(h: &TestHarness, addr: &str) -> MVal {
+    match IoAddress::parse(addr) {
+        Ok(a) => match h.runtime().io().read(&a) {
+            Ok(v) => to_mval(&v),
+            Err(e) => MVal::Other(format!("read error {e:?}")),
+        },
+        Err(e) => MVal::Other(format!("bad address {e:?}")),
+    }
+}
+
+#[derive(Clone, Debug, PartialEq)]
+struct Snap {
+    vars: BTreeMap<String, MVal>,
+    time: i64,
+    faulted: bool,
+    last_fault: Option<String>,
+    cycles: u64,
+    overruns: Vec<(String, Option<u64>)>,
+    outs: Vec<(String, MVal)>,
+    mem: Vec<(String, MVal)>,
+    access: Vec<(String, Option<MVal>)>,
+    // not compared between runtimes, only part of the canonical state key:
+    ins: Vec<(String, MVal)>,
+    stale: Vec<String>,
+}
+
+fn snapshot(fam: &Family, h: &TestHarness) -> Snap {
+    let rt = h.runtime();
+    let live = live_instances(h);
+    let mut stale = Vec::new();
+    for b in rt.io().bindings() {
+        if let IoTarget::Reference(r) = &b.target {
+            if ref_is_stale(r, &live) {
+                stale.push(format!("io:{:?}:{}.{}", b.address.area, b.address.byte, b.address.bit));
+            }
+        }
+    }
+    for (name, _, _) in &fam.access {
+        if let Some(b) = rt.access_map().get(name) {
+            if ref_is_stale(&b.reference, &live) {
+                stale.push(format!("access:{name}"));
+            }
+        }
+    }
+    for t in rt.tasks() {
+        for r in &t.fb_instances {
+            if ref_is_stale(r, &live) {
+                stale.push(format!("taskfb:{}", t.name));
+            }
+        }
+    }
+    Snap {
+        vars: dump_vars(h),
+        time: rt.current_time().as_nanos(),
+        faulted: rt.faulted(),
+        last_fault: rt.last_fault().map(|e| variant_name(&format!("{e:?}"))),
+        cycles: rt.cycle_counter(),
+        overruns: fam.tasks.iter().map(|t| (t.clone(), rt.task_overrun_count(t))).collect(),
+        outs: fam.vars.iter().filter_map(|v| v.out_addr.as_ref()).map(|a| (a.clone(), read_io(h, a))).collect(),
+        mem: fam.vars.iter().filter_map(|v| v.mem_addr.as_ref()).map(|a| (a.clone(), read_io(h, a))).collect(),
+        access: fam.access.iter().map(|(n, _, _)| (n.clone(), h.get_access(n).map(|v| to_mval(&v)))).collect(),
+        ins: fam.vars.iter().filter_map(|v| v.in_addr.as_ref()).map(|a| (a.clone(), read_io(h, a))).collect(),
+        stale,
+    }
+}
+
+fn variant_name(dbg: &str) -> String {
+    dbg.chars().take_while(|c| c.is_ascii_alphanumeric() || *c == '_').collect()
+}
+
+fn norm_msg(m: &str) -> String {
+    let s: String = m.chars().map(|c| if c.is_ascii_digit() { '#' } else { c }).collect();
+    s.chars().take(60).collect()
+}
+
+fn hash128<T: Hash>(t: &T) -> u128 {
+    let mut a = std::collections::hash_map::DefaultHasher::new();
+    0u8.hash(&mut a);
+    t.hash(&mut a);
+    let mut b = std::collections::hash_map::DefaultHasher::new();
+    1u8.hash(&mut b);
+    t.hash(&mut b);
+    ((a.finish() as u128) << 64) | b.finish() as u128
+}
+
+static SCRATCH: Mutex<Option<PathBuf>> = Mutex::new(None);
+static FILE_SEQ: AtomicU64 = AtomicU64::new(0);
+
+fn scratch_file() -> PathBuf {
+    let dir = {
+        let mut g = SCRATCH.lock().unwrap();
+        if g.is_none() {
+            // replay without a Ctx: same layout as Ctx::work_dir()
+            let base = PathBuf::from(std::env::var("TV_VERIF_DIR").unwrap_or_else(|_| "/verif".into()));
+            let d = base.join(".work").join(format!("C09-{}", std::process::id()));
+            let _ = std::fs::create_dir_all(&d);
+            *g = Some(d);
+        }
+        g.clone().unwrap()
+    };
+    dir.join(format!("retain-{}.bin", FILE_SEQ.fetch_add(1, Ordering::Relaxed)))
+}
+
+// ------------------------------------------------------------------------------------------
+// one trace on the real runtime, with the reference model alongside
+// ------------------------------------------------------------------------------------------
+
+#[derive(Clone, Debug)]
+struct Finding {
+    sig: String,
+    what: String,
+    /// index of the event after which it was observed
+    step: usize,
+}
+
+#[derive(Default, Clone, Debug)]
+struct Stats {
+    warm_nontrivial: u64,
+    cold_nontrivial: u64,
+    power_nontrivial: u64,
+    cold_with_fault_latched: u64,
+    relational_checks: u64,
+    cycles_executed: u64,
+    cycles_refused_faulted: u64,
+    task_program_skipped_cycles: u64,
+    /// "clause|feature|pre" / "...|init": which reading the implementation follows where the
+    /// statement is ambiguous
+    adopted: BTreeMap<String, u64>,
+}
+
+impl Stats {
+    fn merge(&mut self, o: &Stats) {
+        self.warm_nontrivial += o.warm_nontrivial;
+        self.cold_nontrivial += o.cold_nontrivial;
+        self.power_nontrivial += o.power_nontrivial;
+        self.cold_with_fault_latched += o.cold_with_fault_latched;
+        self.relational_checks += o.relational_checks;
+        self.cycles_executed += o.cycles_executed;
+        self.cycles_refused_faulted += o.cycles_refused_faulted;
+        self.task_program_skipped_cycles += o.task_program_skipped_cycles;
+        for (k, v) in &o.adopted {
+            *self.adopted.entry(k.clone()).or_insert(0) += v;
+        }
+    }
+}
+
+struct TraceOut {
+    findings: Vec<Finding>,
+    machinery: Vec<String>,
+    /// snaps[0] = freshly built, snaps[i+1] = after events[i]
+    snaps: Vec<Snap>,
+    key: Option<u128>,
+    stats: Stats,
+}
+
+/// smallest discriminating feature tuples for a set of failing variables of one clause
+/// `det`: variables whose expectation discriminates at this step (pre-restart value differs from the
+/// initial one); a group counts as failing as a whole when every determinate member fails.
+fn aggregate(fam: &Family, failing: &BTreeSet<usize>, det: &BTreeSet<usize>) -> Vec<(String, usize)> {
+    let mut out = Vec::new();
+    for &i in failing {
+        if !fam.vars[i].matrix {
+            out.push((fam.vars[i].feature(), i));
+        }
+    }
+    let quals: BTreeSet<Qual> = failing.iter().filter(|&&i| fam.vars[i].matrix).map(|&i| fam.vars[i].qual).collect();
+    let sel = |p: &dyn Fn(&VarSpec) -> bool| -> (Vec<usize>, Vec<usize>) {
+        let univ: Vec<usize> = (0..fam.vars.len()).filter(|&i| fam.vars[i].matrix && p(&fam.vars[i]) && (det.contains(&i) || failing.contains(&i))).collect();
+        let f: Vec<usize> = univ.iter().copied().filter(|i| failing.contains(i)).collect();
+        (univ, f)
+    };
+    for q in quals {
+        let per_scope = |out: &mut Vec<(String, usize)>, scopes: BTreeSet<String>| {
+            for s in scopes {
+                let (us, fs) = sel(&|v| v.qual == q && v.scope == s);
+                if fs.len() == us.len() && us.len() > 1 {
+                    out.push((format!("{s}:{}", q.tag()), fs[0]));
+                } else {
+                    for i in fs {
+                        out.push((fam.vars[i].feature(), i));
+                    }
+                }
+            }
+        };
+        let (u, f) = sel(&|v| v.qual == q && v.coarse != "fbm");
+        if !f.is_empty() {
+            let coarse_kinds: BTreeSet<&str> = u.iter().map(|&i| fam.vars[i].coarse).collect();
+            if f.len() == u.len() && coarse_kinds.len() > 1 {
+                out.push((format!("*:{}", q.tag()), f[0]));
+            } else {
+                for c in ["global", "program"] {
+                    let (uc, fc) = sel(&|v| v.qual == q && v.coarse == c);
+                    if fc.is_empty() {
+                        continue;
+                    }
+                    if fc.len() == uc.len() && uc.len() > 1 {
+                        out.push((format!("{c}:{}", q.tag()), fc[0]));
+                    } else {
+                        let scopes: BTreeSet<String> = fc.iter().map(|&i| fam.vars[i].scope.clone()).collect();
+                        per_scope(&mut out, scopes);
+                    }
+                }
+            }
+        }
+        let (_, ff) = sel(&|v| v.qual == q && v.coarse == "fbm");
+        if !ff.is_empty() {
+            let scopes: BTreeSet<String> = ff.iter().map(|&i| fam.vars[i].scope.clone()).collect();
+            per_scope(&mut out, scopes);
+        }
+    }
+    out
+}
+
+fn build(fam: &Family) -> Result<TestHarness, String> {
+    match catch(|| TestHarness::from_source(&fam.source)) {
+        Ok(Ok(h)) => Ok(h),
+        Ok(Err(e)) => Err(format!("family {} does not compile: {e}", fam.name)),
+        Err(p) => Err(format!("family {}: compiler panicked: {p}", fam.name)),
+    }
+}
+
+fn apply_update(fam: &Family, model: &mut BTreeMap<String, MVal>, i: usize) {
+    let v = &fam.vars[i];
+    let get = |m: &BTreeMap<String, MVal>, p: &str| m.get(p).cloned().unwrap_or(MVal::Other("?".into()));
+    let new = match &v.upd {
+        Upd::Keep => return,
+        Upd::Step => step(&get(model, &v.path)),
+        Upd::CopyOf(s) => get(model, s),
+        Upd::NotOf(s) => match get(model, s) {
+            MVal::B(b) => MVal::B(!b),
+            o => o,
+        },
+        Upd::IncOf(s) => match get(model, s) {
+            MVal::I(x) => MVal::I(x + 1),
+            o => o,
+        },
+    };
+    model.insert(v.path.clone(), new);
+}
+
+fn oshow(v: Option<&MVal>) -> String {
+    v.map(show).unwrap_or_else(|| "<missing>".into())
+}
+
+fn hist_str(ev: &[Ev]) -> String {
+    ev.iter().map(|e| e.name()).collect::<Vec<_>>().join(",")
+}
+
+fn run_trace(fam: &Family, events: &[Ev], report_from: usize) -> TraceOut {
+    let mut out = TraceOut { findings: Vec::new(), machinery: Vec::new(), snaps: Vec::new(), key: None, stats: Stats::default() };
+    let mut h = match build(fam) {
+        Ok(h) => h,
+        Err(e) => {
+            out.machinery.push(e);
+            return out;
+        }
+    };
+    let mut model: BTreeMap<String, MVal> = fam.vars.iter().map(|v| (v.path.clone(), v.init.clone())).collect();
+    let s0 = snapshot(fam, &h);
+    if s0.vars != model {
+        let diff: Vec<String> = model
+            .iter()
+            .filter(|(k, v)| s0.vars.get(*k) != Some(v))
+            .map(|(k, v)| format!("{k}: model {} real {:?}", show(v), s0.vars.get(k).map(show)))
+            .chain(s0.vars.keys().filter(|k| !model.contains_key(*k)).map(|k| format!("{k}: not in model")))
+            .take(5)
+            .collect();
+        out.machinery.push(format!("family {}: fresh runtime differs from the declared initial values: {diff:?}", fam.name));
+        return out;
+    }
+    out.snaps.push(s0);
+    // disruptions (restart / power cycle) seen so far
+    let mut last_disruption: Option<Ev> = None;
+    let mut stop = false;
+    // which reading the implementation followed for each ambiguous group: (preserved?, clause)
+    let mut readings: BTreeMap<String, (bool, &'static str)> = BTreeMap::new();
+
+    for (i, &ev) in events.iter().enumerate() {
+        let report = i >= report_from;
+        let prefix = &events[..=i];
+        // (clause, var index, detail)
+        let mut mism: Vec<(String, usize, String)> = Vec::new();
+        let mut det: BTreeSet<usize> = (0..fam.vars.len()).collect();
+        let mut finds: Vec<Finding> = Vec::new();
+        let prev = out.snaps.last().unwrap().clone();
+        // a post-disruption anomaly is a finding, an anomaly on an undisturbed runtime means the
+        // model or the harness is wrong (machinery, never a verdict)
+        let disrupted_before = last_disruption.is_some();
+        let anomaly = |finds: &mut Vec<Finding>, machinery: &mut Vec<String>, sig: String, what: String| {
+            if disrupted_before {
+                finds.push(Finding { sig, what, step: i });
+            } else {
+                machinery.push(format!("family {} history [{}]: {what} (no restart in the history: model/harness problem)", fam.name, hist_str(prefix)));
+            }
+        };
+        let stats_before = out.stats.clone();
+        let snap;
+        match ev {
+            Ev::Write(k) => {
+                for (j, a) in fam.in_bits.iter().enumerate() {
+                    let val = (j % 2 == 0) == (k == 1);
+                    let _ = h.set_direct_input(a, Value::Bool(val));
+                }
+                for (j, a) in fam.in_words.iter().enumerate() {
+                    let val = if k == 1 { 7 + j as u16 } else { 0 };
+                    let _ = h.set_direct_input(a, Value::Word(val));
+                }
+                snap = snapshot(fam, &h);
+            }
+            Ev::Fault => {
+                let _ = catch(|| h.runtime_mut().simulation_fault("c09"));
+                snap = snapshot(fam, &h);
+            }
+            Ev::AccessWrite => {
+                for (name, target, kind) in &fam.access {
+                    let val: i16 = 1000; // the same sentinel in every trace (restarted and fresh runs are compared)
+                    match catch(|| h.set_access(name, Value::Int(val))) {
+                        Ok(Ok(())) => {}
+                        Ok(Err(e)) => anomaly(&mut finds, &mut out.machinery, format!("C09/binding/{kind}"), format!("writing access path {name} fails with {e:?}")),
+                        Err(p) => finds.push(Finding { sig: format!("C09/panic/access-write/{}", norm_msg(&p)), what: format!("write_access({name}) panicked: {p}"), step: i }),
+                    }
+                    model.insert(target.clone(), MVal::I(val as i128));
+                }
+                snap = snapshot(fam, &h);
+            }
+            Ev::Cycle => {
+                let faulted_before = h.runtime().faulted();
+                let ins_pre: Vec<(usize, MVal)> = fam.vars.iter().enumerate().filter_map(|(j, v)| v.in_addr.as_ref().map(|a| (j, read_io(&h, a)))).collect();
+                let mem_pre: Vec<(usize, MVal)> = fam.vars.iter().enumerate().filter_map(|(j, v)| v.mem_addr.as_ref().map(|a| (j, read_io(&h, a)))).collect();
+                h.advance_time(Duration::from_millis(10));
+                let res = catch(|| h.cycle());
+                let mut executed = true;
+                match res {
+                    Err(p) => {
+                        finds.push(Finding { sig: format!("C09/panic/cycle/{}", norm_msg(&p)), what: format!("execute_cycle panicked after [{}]: {p}", hist_str(prefix)), step: i });
+                        stop = true;
+                        executed = false;
+                    }
+                    Ok(r) => {
+                        if let Some(e) = r.errors.first() {
+                            executed = false;
+                            let name = variant_name(&format!("{e:?}"));
+                            if name == "ResourceFaulted" && faulted_before {
+                                out.stats.cycles_refused_faulted += 1;
+                            } else {
+                                anomaly(&mut finds, &mut out.machinery, format!("C09/cycle-error-after-restart/{name}"), format!("cycle fails with {e:?}"));
+                                stop = true;
+                            }
+                        }
+                    }
+                }
+                snap = snapshot(fam, &h);
+                if executed {
+                    out.stats.cycles_executed += 1;
+                    let mut ran = vec![false; fam.units.len()];
+                    for (u, unit) in fam.units.iter().enumerate() {
+                        if let Some(o) = &unit.observer {
+                            if let (Some(MVal::I(b)), Some(MVal::I(a))) = (prev.vars.get(o), snap.vars.get(o)) {
+                                ran[u] = *a == *b + 1;
+                            }
+                            if !ran[u] {
+                                out.stats.task_program_skipped_cycles += 1;
+                                if unit.always {
+                                    anomaly(&mut finds, &mut out.machinery, "C09/binding/background-program-not-run".into(), format!("the resource executed a cycle but program {} (no task association) did not run: its execution counter {o} did not advance", unit.name));
+                                }
+                            }
+                        }
+                    }
+                    for (u, unit) in fam.units.iter().enumerate() {
+                        if let Some(f) = unit.follows {
+                            ran[u] = ran[f];
+                        }
+                    }
+                    // inputs: adopt the live variable, and check it against the image it was latched from
+                    for (j, img) in &ins_pre {
+                        let v = &fam.vars[*j];
+                        let live = snap.vars.get(&v.path).cloned().unwrap_or(MVal::Other("missing".into()));
+                        out.stats.relational_checks += 1;
+                        if &live != img {
+                            let kind = v.bind_kind.clone().unwrap_or_default();
+                            anomaly(&mut finds, &mut out.machinery, format!("C09/binding/{kind}"), format!("input binding disconnected: {} holds {} after a cycle although {} was {} at cycle start", v.path, show(&live), v.in_addr.as_ref().unwrap(), show(img)));
+                        }
+                        model.insert(v.path.clone(), live);
+                    }
+                    for (j, img) in &mem_pre {
+                        model.insert(fam.vars[*j].path.clone(), img.clone());
+                    }
+                    for j in 0..fam.vars.len() {
+                        let u = fam.vars[j].unit;
+                        if u != usize::MAX && ran[u] {
+                            apply_update(fam, &mut model, j);
+                        }
+                    }
+                    // outputs / memory: image after the cycle equals the live variable
+                    for v in &fam.vars {
+                        let (addr, img) = if let Some(a) = &v.out_addr {
+                            (a, snap.outs.iter().find(|(x, _)| x == a).map(|x| x.1.clone()))
+                        } else if let Some(a) = &v.mem_addr {
+                            (a, snap.mem.iter().find(|(x, _)| x == a).map(|x| x.1.clone()))
+                        } else {
+                            continue;
+                        };
+                        let live = snap.vars.get(&v.path).cloned();
+                        out.stats.relational_checks += 1;
+                        if live != img {
+                            let kind = v.bind_kind.clone().unwrap_or_default();
+                            anomaly(&mut finds, &mut out.machinery, format!("C09/binding/{kind}"), format!("output binding disconnected: {addr} is {} after a cycle although {} holds {}", oshow(img.as_ref()), v.path, oshow(live.as_ref())));
+                        }
+                    }
+                }
+            }
+            Ev::Warm | Ev::Cold | Ev::Power => {
+                let pre = model.clone();
+                let clause = match ev {
+                    Ev::Warm => "warm",
+                    Ev::Cold => "cold",
+                    _ => "power-cycle",
+                };
+                let was_faulted = h.runtime().faulted();
+                let mut failed: Option<(String, String)> = None;
+                match ev {
+                    Ev::Warm | Ev::Cold => {
+                        let mode = if ev == Ev::Warm { RestartMode::Warm } else { RestartMode::Cold };
+                        match catch(|| h.restart(mode)) {
+                            Ok(Ok(())) => {}
+                            Ok(Err(e)) => failed = Some((format!("C09/restart-error/{clause}/{}", variant_name(&format!("{e:?}"))), format!("restart fails: {e:?}"))),
+                            Err(p) => failed = Some((format!("C09/panic/restart/{}", norm_msg(&p)), format!("restart panicked: {p}"))),
+                        }
+                    }
+                    _ => {
+                        let path = scratch_file();
+                        let r = catch(|| -> Result<TestHarness, (String, String)> {
+                            let rt = h.runtime_mut();
+                            rt.set_retain_store(Some(Box::new(FileRetainStore::new(&path))), None);
+                            rt.mark_retain_dirty();
+                            rt.save_retain_store().map_err(|e| (format!("C09/power-cycle/save-error/{}", variant_name(&format!("{e:?}"))), format!("save_retain_store fails: {e:?}")))?;
+                            let mut h2 = TestHarness::from_source(&fam.source).map_err(|e| ("machinery".to_string(), format!("rebuild failed: {e}")))?;
+                            let rt2 = h2.runtime_mut();
+                            rt2.set_retain_store(Some(Box::new(FileRetainStore::new(&path))), None);
+                            rt2.load_retain_store().map_err(|e| (format!("C09/power-cycle/load-error/{}", variant_name(&format!("{e:?}"))), format!("load_retain_store fails: {e:?}")))?;
+                            rt2.set_retain_store(None, None);
+                            Ok(h2)
+                        });
+                        let _ = std::fs::remove_file(&path);
+                        match r {
+                            Ok(Ok(h2)) => h = h2,
+                            Ok(Err(f)) => failed = Some(f),
+                            Err(p) => failed = Some((format!("C09/panic/power-cycle/{}", norm_msg(&p)), format!("power cycle panicked: {p}"))),
+                        }
+                    }
+                }
+                if let Some((sig, what)) = failed {
+                    if sig == "machinery" {
+                        out.machinery.push(what);
+                    } else {
+                        finds.push(Finding { sig, what: format!("after [{}]: {what}", hist_str(prefix)), step: i });
+                    }
+                    stop = true;
+                }
+                snap = snapshot(fam, &h);
+                if !stop {
+                    let mut nontrivial = false;
+                    det.clear();
+                    for (j, v) in fam.vars.iter().enumerate() {
+                        let p = pre.get(&v.path).cloned().unwrap_or(MVal::Other("?".into()));
+                        let mut inits = vec![v.init.clone()];
+                        if let Some(a) = &v.alt_init {
+                            inits.push(a.clone());
+                        }
+                        let class = if ev == Ev::Cold { Class::Reset } else { v.class };
+                        // an implementation may re-latch %I/%M-bound variables from the image as part of
+                        // the restart: the image value is as good as the initial value for them
+                        if let Some(a) = v.in_addr.as_ref().or(v.mem_addr.as_ref()) {
+                            let img = read_io(&h, a);
+                            if !inits.contains(&img) {
+                                inits.push(img);
+                            }
+                        }
+                        let is_init = |x: &MVal| inits.contains(x);
+                        let allowed: Vec<MVal> = match class {
+                            Class::Keep => vec![p.clone()],
+                            Class::Reset => inits.clone(),
+                            Class::Ambiguous => {
+                                let mut a = vec![p.clone()];
+                                a.extend(inits.clone());
+                                a
+                            }
+                        };
+                        if !is_init(&p) {
+                            det.insert(j);
+                        }
+                        if !is_init(&p) && (ev == Ev::Cold || v.class == Class::Keep) {
+                            nontrivial = true;
+                        }
+                        let Some(real) = snap.vars.get(&v.path).cloned() else {
+                            mism.push((format!("{clause}/missing-variable"), j, format!("{} no longer exists", v.path)));
+                            model.insert(v.path.clone(), allowed[0].clone());
+                            continue;
+                        };
+                        if allowed.contains(&real) {
+                            if ev != Ev::Cold && !is_init(&p) && (class == Class::Ambiguous || (class == Class::Reset && v.alt_init.is_some())) {
+                                let which = if real == p { "pre-restart value" } else if real == v.init { "initial value" } else { "POU initial value" };
+                                let scope = if v.matrix { format!("{}:{}", v.scope, v.qual.tag()) } else { v.feature() };
+                                *out.stats.adopted.entry(format!("{clause}|{scope}|{which}")).or_insert(0) += 1;
+                                // a reading must be followed consistently: the last sentence of the statement
+                                // ties the power cycle to the warm restart ("the same set of variables")
+                                if class == Class::Ambiguous {
+                                    let group = if v.coarse == "fbm" { v.scope.clone() } else { format!("{}:{}", v.scope, v.qual.tag()) };
+                                    let kept = real == p;
+                                    match readings.get(&group) {
+                                        None => {
+                                            readings.insert(group, (kept, clause));
+                                        }
+                                        Some(&(k0, c0)) if k0 != kept => {
+                                            let sig = if c0 == clause { format!("C09/{clause}/inconsistent-retention/{group}") } else { format!("C09/power-cycle/set-differs-from-warm/{group}") };
+                                            finds.push(Finding {
+                                                sig,
+                                                what: format!("{} ({}) {} by this {clause} although variables of this kind {} by an earlier {c0} in the same history: no reading of the statement explains both (a power cycle must preserve the same set as a warm restart)", v.path, v.feature(), if kept { "is preserved" } else { "is re-initialised" }, if k0 { "were preserved" } else { "were re-initialised" }),
+                                                step: i,
+                                            });
+                                        }
+                                        _ => {}
+                                    }
+                                }
+                            }
+                            model.insert(v.path.clone(), real);
+                            continue;
+                        }
+                        let kind = match (ev, class) {
+                            (Ev::Cold, _) => if real == p { "kept" } else { "wrong-value" },
+                            (_, Class::Keep) => if is_init(&real) { "lost" } else { "wrong-value" },
+                            (_, Class::Reset) => if real == p { "kept-non-retain" } else { "wrong-value" },
+                            (_, Class::Ambiguous) => "wrong-value",
+                        };
+                        mism.push((
+                            format!("{clause}/{kind}"),
+                            j,
+                            format!("{} ({}) is {} but must be {}; before: {}, declared initial: {}", v.path, v.feature(), show(&real), allowed.iter().map(show).collect::<Vec<_>>().join(" or "), show(&p), show(&v.init)),
+                        ));
+                        // resynchronise: one defect is reported once along a trace
+                        model.insert(v.path.clone(), real);
+                    }
+                    if nontrivial {
+                        match ev {
+                            Ev::Warm => out.stats.warm_nontrivial += 1,
+                            Ev::Cold => out.stats.cold_nontrivial += 1,
+                            _ => out.stats.power_nontrivial += 1,
+                        }
+                    }
+                    if ev == Ev::Cold && was_faulted {
+                        out.stats.cold_with_fault_latched += 1;
+                    }
+                }
+                last_disruption = Some(ev);
+            }
+        }
+        let disrupted_now = last_disruption.is_some();
+        let anomaly = |finds: &mut Vec<Finding>, machinery: &mut Vec<String>, sig: String, what: String| {
+            if disrupted_now {
+                finds.push(Finding { sig, what, step: i });
+            } else {
+                machinery.push(format!("family {} history [{}]: {what} (no restart in the history: model/harness problem)", fam.name, hist_str(prefix)));
+            }
+        };
+        // (V) variables vs model after ordinary events
+        if !stop && !matches!(ev, Ev::Warm | Ev::Cold | Ev::Power) {
+            for (j, v) in fam.vars.iter().enumerate() {
+                let m = model.get(&v.path);
+                let r = snap.vars.get(&v.path);
+                if m != r {
+                    let detail = format!("{} ({}) is {}, reference model says {}", v.path, v.feature(), oshow(r), oshow(m));
+                    match (&v.bind_kind, last_disruption) {
+                        (_, None) => out.machinery.push(format!("family {} history [{}]: {detail} (no restart in the history: model/harness problem)", fam.name, hist_str(prefix))),
+                        (Some(k), Some(_)) => finds.push(Finding { sig: format!("C09/binding/{k}"), what: format!("after [{}]: {detail}", hist_str(prefix)), step: i }),
+                        (None, Some(d)) => mism.push((format!("divergence-after-{}", d.name()), j, detail)),
+                    }
+                    // resynchronise so that one divergence is reported once along a trace
+                    if let Some(r) = r {
+                        model.insert(v.path.clone(), r.clone());
+                    }
+                }
+            }
+        }
+        // access paths read the live variable
+        if !stop {
+            for (name, target, kind) in &fam.access {
+                let a = snap.access.iter().find(|(n, _)| n == name).and_then(|x| x.1.clone());
+                let live = snap.vars.get(target).cloned();
+                out.stats.relational_checks += 1;
+                if a != live {
+                    anomaly(&mut finds, &mut out.machinery, format!("C09/binding/{kind}"), format!("access path disconnected: {name} reads {} but {target} holds {}", oshow(a.as_ref()), oshow(live.as_ref())));
+                }
+            }
+        }
+        // signatures from the mismatching variables
+        let clauses: BTreeSet<String> = mism.iter().map(|m| m.0.clone()).collect();
+        for c in clauses {
+            let failing: BTreeSet<usize> = mism.iter().filter(|m| m.0 == c).map(|m| m.1).collect();
+            for (feat, w) in aggregate(fam, &failing, &det) {
+                let detail = mism.iter().find(|m| m.0 == c && m.1 == w).map(|m| m.2.clone()).unwrap_or_default();
+                finds.push(Finding {
+                    sig: format!("C09/{c}/{feat}"),
+                    what: format!("after [{}]: {detail} ({} variable(s) of this kind affected)", hist_str(prefix), failing.len()),
+                    step: i,
+                });
+            }
+        }
+        if !report {
+            // counters describe the reported suffix only (prefixes are counted by their own evaluation)
+            out.stats = stats_before;
+        }
+        if report {
+            // one finding per signature and step
+            let mut seen = BTreeSet::new();
+            for mut f in finds {
+                if seen.insert(f.sig.clone()) {
+                    if !f.what.starts_with("after [") {
+                        f.what = format!("after [{}]: {}", hist_str(prefix), f.what);
+                    }
+                    out.findings.push(f);
+                }
+            }
+        }
+        out.snaps.push(snap);
+        if stop {
+            return out;
+        }
+    }
+    let last = out.snaps.last().unwrap();
+    out.key = Some(hash128(&format!("{last:?}|{model:?}")));
+    out
+}
+
+// ------------------------------------------------------------------------------------------
+// evaluation of one history (= one BFS state): state checks + look-ahead after a restart
+// ------------------------------------------------------------------------------------------
+
+struct EvalOut {
+    key: Option<u128>,
+    violations: Vec<Violation>,
+    machinery: Vec<String>,
+    stats: Stats,
+    traces: u64,
+    lookahead_traces: u64,
+    differential_pairs: u64,
+}
+
+type FreshCache = Vec<(Vec<Ev>, Vec<Snap>)>;
+
+fn fresh_cache(fam: &Family) -> Result<FreshCache, String> {
+    let mut out = Vec::new();
+    for t in fam.continuations() {
+        let tr = run_trace(fam, &t, 0);
+        if let Some(m) = tr.machinery.first() {
+            return Err(m.clone());
+        }
+        if let Some(f) = tr.findings.first() {
+            return Err(format!("family {}: fresh runtime on continuation [{}] already disagrees with the model: {} {}", fam.name, hist_str(&t), f.sig, f.what));
+        }
+        if tr.snaps.len() != t.len() + 1 {
+            return Err(format!("family {}: fresh continuation [{}] stopped early", fam.name, hist_str(&t)));
+        }
+        out.push((t, tr.snaps));
+    }
+    Ok(out)
+}
+
+fn to_violation(fam: &Family, persistent: bool, events: &[Ev], f: &Finding) -> Violation {
+    Violation {
+        signature: f.sig.clone(),
+        what: format!("[family {}] {}", fam.name, f.what),
+        case: json!({
+            "family": fam.name,
+            "persistent": persistent,
+            "history": hist_json(&events[..(f.step + 1).min(events.len())]),
+            "source": fam.source,
+        }),
+    }
+}
+
+fn first_var_diff(a: &BTreeMap<String, MVal>, b: &BTreeMap<String, MVal>) -> String {
+    for (k, v) in a {
+        match b.get(k) {
+            Some(w) if w == v => {}
+            Some(w) => return format!("{k}: restarted {} vs fresh {}", show(v), show(w)),
+            None => return format!("{k}: exists only after the restart"),
+        }
+    }
+    for k in b.keys() {
+        if !a.contains_key(k) {
+            return format!("{k}: exists only in the fresh runtime");
+        }
+    }
+    String::new()
+}
+
+fn evaluate(fam: &Family, persistent: bool, hist: &[Ev], fresh: &FreshCache) -> EvalOut {
+    let base = run_trace(fam, hist, hist.len().saturating_sub(1));
+    let mut out = EvalOut {
+        key: base.key,
+        violations: base.findings.iter().map(|f| to_violation(fam, persistent, hist, f)).collect(),
+        machinery: base.machinery.clone(),
+        stats: base.stats.clone(),
+        traces: 1,
+        lookahead_traces: 0,
+        differential_pairs: 0,
+    };
+    let Some(&last) = hist.last() else { return out };
+    if !last.is_restart() || base.key.is_none() {
+        return out;
+    }
+    let mut seen_sigs: BTreeSet<String> = out.violations.iter().map(|v| v.signature.clone()).collect();
+    for (t, fresh_snaps) in fresh {
+        let mut ev = hist.to_vec();
+        ev.extend(t.iter().copied());
+        let tr = run_trace(fam, &ev, hist.len());
+        // hidden state (task edge/phase memory, stale references) shows in the next cycles: make it
+        // part of the canonical key so that restart states are merged only if they also behave alike
+        if let Some(k) = out.key {
+            out.key = Some(hash128(&format!("{k}|{:?}", &tr.snaps[hist.len().min(tr.snaps.len())..])));
+        }
+        out.traces += 1;
+        out.lookahead_traces += 1;
+        out.machinery.extend(tr.machinery.iter().cloned());
+        out.stats.merge(&tr.stats);
+        for f in &tr.findings {
+            if seen_sigs.insert(f.sig.clone()) {
+                out.violations.push(to_violation(fam, persistent, &ev, f));
+            }
+        }
+        if last != Ev::Cold {
+            continue;
+        }
+        // differential clause: cold restart + continuation == fresh runtime + continuation
+        let explained = tr.findings.iter().chain(base.findings.iter()).any(|f| f.sig.starts_with("C09/binding/"));
+        let first_cycle = t.iter().position(|e| *e == Ev::Cycle).map(|p| p + 1).unwrap_or(usize::MAX);
+        let mut caused = false;
+        for p in 0..=t.len() {
+            let (Some(a), Some(b)) = (tr.snaps.get(hist.len() + p), fresh_snaps.get(p)) else { break };
+            out.differential_pairs += 1;
+            let mut diffs: Vec<(&str, String)> = Vec::new();
+            if a.time != b.time {
+                diffs.push(("time", format!("current time {} ns vs fresh {} ns", a.time, b.time)));
+            }
+            if a.faulted != b.faulted || a.last_fault != b.last_fault {
+                diffs.push(("fault-latch", format!("faulted={} last_fault={:?} vs fresh faulted={} last_fault={:?}", a.faulted, a.last_fault, b.faulted, b.last_fault)));
+            }
+            if a.overruns != b.overruns {
+                diffs.push(("task-overrun", format!("task overrun counters {:?} vs fresh {:?}", a.overruns, b.overruns)));
+            }
+            if !explained {
+                let (mut va, mut vb) = (a.vars.clone(), b.vars.clone());
+                if p < first_cycle {
+                    // %I/%M-bound variables are (re-)latched by the first cycle; before it they may
+                    // legitimately mirror the image, which is environment
+                    for v in fam.vars.iter().filter(|v| v.in_addr.is_some() || v.mem_addr.is_some()) {
+                        va.remove(&v.path);
+                        vb.remove(&v.path);
+                    }
+                }
+                if va != vb {
+                    diffs.push(("vars", first_var_diff(&va, &vb)));
+                }
+                if a.access != b.access {
+                    diffs.push(("access", format!("access paths read {:?} vs fresh {:?}", a.access, b.access)));
+                }
+                if p >= first_cycle && a.outs != b.outs {
+                    diffs.push(("outputs", format!("outputs {:?} vs fresh {:?}", a.outs, b.outs)));
+                }
+            }
+            if diffs.iter().any(|d| d.0 == "fault-latch" || d.0 == "time") {
+                // a latched fault refuses cycles, a stale clock shifts task phases: differing variables
+                // and outputs are consequences, report the cause only
+                diffs.retain(|d| !matches!(d.0, "vars" | "outputs" | "access"));
+                caused = true;
+            }
+            if caused {
+                diffs.retain(|d| !matches!(d.0, "vars" | "outputs" | "access"));
+            }
+            for (aspect, detail) in diffs {
+                // time / fault latch / task state are not specific to a program family
+                let sig = if matches!(aspect, "vars" | "outputs" | "access") { format!("C09/cold-vs-fresh/{}/{aspect}", fam.name) } else { format!("C09/cold-vs-fresh/{aspect}") };
+                if seen_sigs.insert(sig.clone()) {
+                    let f = Finding {
+                        sig,
+                        what: format!("after [{}] and continuation [{}] the restarted runtime differs from a freshly built one run on the same continuation: {detail}", hist_str(hist), hist_str(&t[..p])),
+                        step: hist.len() - 1,
+                    };
+                    out.violations.push(to_violation(fam, persistent, hist, &f));
+                }
+            }
+        }
+    }
+    out
+}
+
+pub fn check_case(case: &J) -> Vec<Violation> {
+    let name = case["family"].as_str().unwrap_or("");
+    let persistent = case["persistent"].as_bool().unwrap_or(true);
+    let Some(fam) = family_by_name(name, persistent) else { return Vec::new() };
+    if let Some(src) = case["source"].as_str() {
+        if src != fam.source {
+            eprintln!("C09 replay: the recorded program text differs from what the generator produces now; replaying the generated one");
+        }
+    }
+    let hist: Vec<Ev> = case["history"]
+        .as_array()
+        .map(|a| a.iter().filter_map(|x| x.as_str().and_then(Ev::parse)).collect())
+        .unwrap_or_default();
+    let fresh = match fresh_cache(&fam) {
+        Ok(f) => f,
+        Err(e) => {
+            eprintln!("C09 replay: {e}");
+            return Vec::new();
+        }
+    };
+    let out = evaluate(&fam, persistent, &hist, &fresh);
+    for m in &out.machinery {
+        eprintln!("C09 replay: machinery note: {m}");
+    }
+    out.violations
+}
+
+pub fn run(ctx: &Ctx) -> EngineResult {
+    quiet_panics();
+    *SCRATCH.lock().unwrap() = Some(ctx.work_dir());
+    let mut rep = Report::new("model_checking");
+    let deadline = Instant::now() + StdDuration::from_secs(ctx.tier.pick(36, 840));
+    // TV_C09_DEPTH: experimentation knob only (the tiers fix the bound)
+    let max_depth = std::env::var("TV_C09_DEPTH").ok().and_then(|s| s.parse().ok()).unwrap_or(ctx.tier.pick(4usize, 8usize));
+    let stack = 16 << 20;
+
+    // PERSISTENT is a vendor extension: use it if the compiler accepts it everywhere
+    let persistent = build(&family_matrix(&QUALS_ALL)).is_ok();
+    rep.set("persistent_accepted", persistent);
+
+    let mut total_states = 0u64;
+    let mut total_transitions = 0u64;
+    let mut total_traces = 0u64;
+    let mut min_depth_completed = max_depth;
+    let mut exhaustive = true;
+    let mut all_stats = Stats::default();
+    let mut lookahead = 0u64;
+    let mut diff_pairs = 0u64;
+
+    for name in FAMILY_NAMES {
+        let fam = family_by_name(name, persistent).unwrap();
+        if let Err(e) = build(&fam) {
+            return machinery(e);
+        }
+        let fresh = match fresh_cache(&fam) {
+            Ok(f) => f,
+            Err(e) => return machinery(e),
+        };
+        let notes: Mutex<Vec<String>> = Mutex::new(Vec::new());
+        let stats: Mutex<Stats> = Mutex::new(Stats::default());
+        let traces = AtomicU64::new(0);
+        let look = AtomicU64::new(0);
+        let pairs = AtomicU64::new(0);
+        let enabled = |_h: &[Ev]| fam.events.clone();
+        let eval = |h: &[Ev]| {
+            let o = evaluate(&fam, persistent, h, &fresh);
+            traces.fetch_add(o.traces, Ordering::Relaxed);
+            look.fetch_add(o.lookahead_traces, Ordering::Relaxed);
+            pairs.fetch_add(o.differential_pairs, Ordering::Relaxed);
+            if !o.machinery.is_empty() {
+                let mut n = notes.lock().unwrap();
+                if n.len() < 20 {
+                    n.extend(o.machinery.iter().take(3).cloned());
+                }
+            }
+            stats.lock().unwrap().merge(&o.stats);
+            x2::StepResult { key: o.key, violations: o.violations }
+        };
+        let bfs = x2::bfs(max_depth, ctx.threads, stack, Some(deadline), &enabled, &eval);
+        let notes = notes.into_inner().unwrap();
+        if let Some(n) = notes.first() {
+            return machinery(format!("reference model / harness inconsistency ({} notes), first: {n}", notes.len()));
+        }
+        eprintln!(
+            "[C09] family {name}: {} vars, states {} transitions {} depth {} capped {} at {:.1}s",
+            fam.vars.len(),
+            bfs.states,
+            bfs.transitions,
+            bfs.depth_completed,
+            bfs.capped,
+            ctx.elapsed()
+        );
+        rep.set(&format!("family_{name}_variables"), fam.vars.len() as u64);
+        rep.set(&format!("family_{name}_execution_units"), json!(fam.units.iter().map(|u| u.name.clone()).collect::<Vec<_>>()));
+        rep.set(&format!("family_{name}_states"), bfs.states);
+        rep.set(&format!("family_{name}_transitions"), bfs.transitions);
+        rep.set(&format!("family_{name}_depth_completed"), bfs.depth_completed as u64);
+        rep.set(&format!("family_{name}_frontiers"), json!(bfs.frontier_sizes));
+        rep.set(&format!("family_{name}_alphabet"), json!(fam.events.iter().map(|e| e.name()).collect::<Vec<_>>()));
+        if bfs.capped {
+            exhaustive = false;
+            rep.cap(format!("family {name}: wall cap reached, depth completed {}", bfs.depth_completed));
+        }
+        min_depth_completed = min_depth_completed.min(bfs.depth_completed);
+        total_states += bfs.states;
+        total_transitions += bfs.transitions;
+        total_traces += traces.load(Ordering::Relaxed);
+        lookahead += look.load(Ordering::Relaxed);
+        diff_pairs += pairs.load(Ordering::Relaxed);
+        all_stats.merge(&stats.into_inner().unwrap());
+        for hs in bfs.sample_histories.iter().take(2) {
+            rep.sample(json!({"family": name, "history": hist_json(hs)}));
+        }
+        rep.violations_from(bfs.violations);
+    }
+
+    rep.set("states", total_states);
+    rep.set("transitions", total_transitions);
+    rep.set("traces_validated_against_impl", total_traces);
+    rep.set("lookahead_continuation_traces", lookahead);
+    rep.set("cold_vs_fresh_snapshot_pairs_compared", diff_pairs);
+    rep.set("max_depth", max_depth as u64);
+    rep.set("depth_completed", min_depth_completed as u64);
+    rep.set("exhaustive", exhaustive);
+    rep.set("warm_restarts_with_retained_value_differing_from_initial", all_stats.warm_nontrivial);
+    rep.set("cold_restarts_with_state_differing_from_initial", all_stats.cold_nontrivial);
+    rep.set("power_cycles_with_retained_value_differing_from_initial", all_stats.power_nontrivial);
+    rep.set("cold_restarts_with_fault_latched", all_stats.cold_with_fault_latched);
+    rep.set("binding_relational_checks", all_stats.relational_checks);
+    rep.set("cycles_executed", all_stats.cycles_executed);
+    rep.set("cycles_refused_because_faulted", all_stats.cycles_refused_faulted);
+    rep.set("cycles_in_which_a_task_program_did_not_run", all_stats.task_program_skipped_cycles);
+    rep.set("ambiguous_readings_followed_by_the_implementation", json!(all_stats.adopted));
+    rep.assume("time, fault latch, task state and cycle counter are only compared differentially (cold restart vs fresh runtime); after a warm restart they are adopted from the implementation because the statement is silent about them");
+    rep.assume("whether a task-associated program ran in a cycle is read from that program's own execution counter (scheduling is C06's business)");
+    rep.assume("FB members under a RETAIN/PERSISTENT declaration, unqualified variables of a PROGRAM RETAIN instance and VAR_CONFIG initial values accept both readings (see header comment)");
+    rep.assume("the %I image is environment: inputs for a cycle are read from the real image before the cycle; continuations write every input before every cycle");
+    if exhaustive
+        && (all_stats.warm_nontrivial == 0
+            || all_stats.cold_nontrivial == 0
+            || all_stats.power_nontrivial == 0
+            || all_stats.relational_checks == 0
+            || all_stats.cold_with_fault_latched == 0
+            || lookahead == 0)
+    {
+        return machinery("vacuous exploration: a restart kind was never exercised with state differing from the initial one");
+    }
+    Ok(rep)
 }
 
 pub fn workers() -> Vec<(&'static str, WorkerFn)> {
